@@ -224,7 +224,7 @@ def d_term(t):
     if isinstance(t, T.Parameter):
         if isinstance(t, (T.ListParameter, T.DictParameter)):
             raise Unsupported("collector used as a term")
-        return {"k": "param", "text": str(t.placeholder)}
+        return {"k": "param", "text": str(t.placeholder), "alias": al}
     raise Unsupported("term class %r" % c)
 
 
